@@ -17,7 +17,7 @@ the keyed construction needs.  Helper lemmas: `HvGht/Lemmas/{MapLemmas,Bim,Laws}
   strict, and `KeyedBimorphism(PairBimorphism)` violates the law on maps holding a bottom
   value (finding F23, `keyed_pair_refuted`).
 * GHT: deep join (all heights) and cartesian product satisfy both laws up to the set of rows,
-  and structurally (the crate's `==` on tries) for the deep join.
+  and under the crate's `==` on tries.
 -/
 import HvGht.Lemmas.Laws
 import HvGht.Lemmas.Compare
@@ -155,19 +155,22 @@ theorem deep_join_right_rows (sk : Kind) (k n d : Nat) (a b b' : Ght n)
       x ∈ grows n (gmerge .set n (deepJoin sk k n a b) (deepJoin sk k n a b')).1 :=
   aux_deepJoin_rows_right sk k n d a b b' ha hb hb' x
 
-/-- deep join, both laws under the crate's own structural `==` on tries (which does see empty
-children: the two sides create the *same* empty children). -/
+/-- deep join, both laws under the crate's own `==` on tries (which since the F7 fix compares the rows
+of well-formed tries: the outputs are well formed, `deep_join_wf`).  `la`: the rows of the left
+operand have the columns the trie is keyed on (in Rust: the schema's arity). -/
 theorem deep_join_left_eq (k n d : Nat) (a a' b : Ght n)
-    (ha : Wf .set n d a) (ha' : Wf .set n d a') (hb : Wf .set n d b) :
+    (ha : Wf .set n d a) (ha' : Wf .set n d a') (hb : Wf .set n d b)
+    (la : ∀ r ∈ grows n a, d + n ≤ r.length) (la' : ∀ r ∈ grows n a', d + n ≤ r.length) :
     (ghtOps n).eq (deepJoin .set k n ((ghtOps n).merge a a') b)
       ((ghtOps n).merge (deepJoin .set k n a b) (deepJoin .set k n a' b)) = true :=
-  aux_deepJoin_struct_left k n d a a' b ha ha' hb
+  aux_deepJoin_struct_left k n d a a' b ha ha' hb la la'
 
 theorem deep_join_right_eq (k n d : Nat) (a b b' : Ght n)
-    (ha : Wf .set n d a) (hb : Wf .set n d b) (hb' : Wf .set n d b') :
+    (ha : Wf .set n d a) (hb : Wf .set n d b) (hb' : Wf .set n d b')
+    (la : ∀ r ∈ grows n a, d + n ≤ r.length) :
     (ghtOps n).eq (deepJoin .set k n a ((ghtOps n).merge b b'))
       ((ghtOps n).merge (deepJoin .set k n a b) (deepJoin .set k n a b')) = true :=
-  aux_deepJoin_struct_right k n d a b b' ha hb hb'
+  aux_deepJoin_struct_right k n d a b b' ha hb hb' la
 
 /-- `GhtCartesianProductBimorphism`, both laws as sets of rows (any input/output heights) -/
 theorem ght_cartesian_product_left_rows (sk : Kind) (no na nb da db : Nat) (a a' : Ght na) (b : Ght nb) (x : Row) :
@@ -180,9 +183,8 @@ theorem ght_cartesian_product_right_rows (sk : Kind) (no na nb da db : Nat) (a :
       x ∈ grows no (gmerge .set no (gcart sk no da db a b) (gcart sk no da db a b')).1 :=
   aux_cart_rows_right sk no na nb da db a b b' x
 
-/-- the structural (`==`) form of the cartesian-product law, for an inner-node output type:
-both sides are rebuilt by `insert`, hence satisfy the invariant `Good` of C08, under which `==`
-is equality of the sets of rows. -/
+/-- the `==` form of the cartesian-product law, for an inner-node output type: both sides are
+well-formed tries, for which `==` is equality of the sets of rows (C08). -/
 theorem ght_cartesian_product_left_eq (no na nb da db : Nat) (a a' : Ght na) (b : Ght nb) (hno : 0 < no) :
     geq no (gcart .set no da db (gmerge .set na a a').1 b)
       (gmerge .set no (gcart .set no da db a b) (gcart .set no da db a' b)).1 = true := by
@@ -190,7 +192,7 @@ theorem ght_cartesian_product_left_eq (no na nb da db : Nat) (a a' : Ght na) (b 
   have g1 : Good (m + 1) 0 (gcart .set (m + 1) da db (gmerge .set na a a').1 b) := aux_good_newFrom _ _ _
   have g2 : Good (m + 1) 0 (gcart .set (m + 1) da db a b) := aux_good_newFrom _ _ _
   have g3 : Good (m + 1) 0 (gcart .set (m + 1) da db a' b) := aux_good_newFrom _ _ _
-  rw [aux_geq_iff (m + 1) 0 _ _ g1 (aux_good_merge _ _ _ _ g2 g3)]
+  rw [aux_geq_iff (m + 1) 0 _ _ g1.1 (aux_good_merge _ _ _ _ g2 g3).1]
   exact fun x => aux_cart_rows_left .set (m + 1) na nb da db a a' b x
 
 theorem ght_cartesian_product_right_eq (no na nb da db : Nat) (a : Ght na) (b b' : Ght nb) (hno : 0 < no) :
@@ -200,7 +202,7 @@ theorem ght_cartesian_product_right_eq (no na nb da db : Nat) (a : Ght na) (b b'
   have g1 : Good (m + 1) 0 (gcart .set (m + 1) da db a (gmerge .set nb b b').1) := aux_good_newFrom _ _ _
   have g2 : Good (m + 1) 0 (gcart .set (m + 1) da db a b) := aux_good_newFrom _ _ _
   have g3 : Good (m + 1) 0 (gcart .set (m + 1) da db a b') := aux_good_newFrom _ _ _
-  rw [aux_geq_iff (m + 1) 0 _ _ g1 (aux_good_merge _ _ _ _ g2 g3)]
+  rw [aux_geq_iff (m + 1) 0 _ _ g1.1 (aux_good_merge _ _ _ _ g2 g3).1]
   exact fun x => aux_cart_rows_right .set (m + 1) na nb da db a b b' x
 
 /-! ## non-vacuity -/
